@@ -145,6 +145,22 @@ class FPCoreContext:
         if not isinstance(ctx, Context):
             raise TypeError(f'Expected \'Context\' for ctx={ctx}, got {type(ctx)}')
 
+        fpc_ctx = FPCoreContext._from_context(ctx)
+        # The property table cannot express every parameter of a context
+        # (overflow mode of an IEEE format, stochastic rounding, the scale of
+        # an unbounded fixed-point format, ...).  Dropping one silently would
+        # change what the program computes, so only contexts that survive the
+        # round trip are convertible.
+        try:
+            back = fpc_ctx.to_context()
+        except NoSuchContextError:
+            back = None
+        if back != ctx:
+            raise RuntimeError(f'Cannot convert to an FPCore context without changing its behavior: {ctx}')
+        return fpc_ctx
+
+    @staticmethod
+    def _from_context(ctx: Context) -> 'FPCoreContext':
         match ctx:
             case IEEEContext():
                 rm = _round_mode_from_fpc(ctx.rm)
@@ -172,7 +188,8 @@ class FPCoreContext:
                     raise RuntimeError('Cannot convert unsigned FixedContext to an FPCore context')
                 rm = _round_mode_from_fpc(ctx.rm)
                 of = _overflow_mode_from_fpc(ctx.overflow)
-                return FPCoreContext(precision=['fixed', ctx.nbits, ctx.scale], round=rm, overflow=of)
+                # FPCore: (fixed <scale> <nbits>), which is also how `to_context` reads it
+                return FPCoreContext(precision=['fixed', ctx.scale, ctx.nbits], round=rm, overflow=of)
             case _ if ctx is REAL:
                 return FPCoreContext(precision='real')
             case _:
@@ -203,8 +220,8 @@ class FPCoreContext:
                 case 'binary16':
                     return FP16.with_params(rm=_round_mode_to_fpy(rnd))
                 # fixed-point context
-                case ['fixed', nbits, scale]:
-                    return FixedContext(True, int(nbits), int(scale), _round_mode_to_fpy(rnd), _overflow_mode_to_fpc(ov))
+                case ['fixed', scale, nbits]:
+                    return FixedContext(True, int(scale), int(nbits), _round_mode_to_fpy(rnd), _overflow_mode_to_fpc(ov))
                 # integer context
                 case 'integer':
                     return INTEGER.with_params(rm=_round_mode_to_fpy(rnd))
